@@ -102,14 +102,15 @@ def h1_seidel(ctx, K, stop, obj, image_air=False):
     ctx.observe('S1', Ssum[0])
 
 
-@harness('C08', 'H2_identities', funcs=FUNCS, cases=lambda tier: [dict(stop=1), dict(stop=2)],
-         bounds='K=2 spherical lens, symbolic numbers, infinite object',
+@harness('C08', 'H2_identities', funcs=FUNCS, cases=lambda tier: [dict(stop=1), dict(stop=2), dict(stop=1, obj='finite')] + ([dict(stop=2, obj='finite')] if tier == 'thorough' else []),
+         bounds='K=2 spherical lens, symbolic numbers, object at infinity (angular field) or at a symbolic finite distance (object-height field)',
          doc='tangential coma = 3 x sagittal coma; each longitudinal term = transverse term / (- final marginal slope); every accessor '
              'equals the corresponding entry of third_order(); seidels() = last entry of third_order(); operand wrappers agree')
-def h2_identities(ctx, stop):
+def h2_identities(ctx, stop, obj='inf'):
     from optiland.optimization.operand.aberration import AberrationOperand as AO
-    L = Lens(ctx, 2, (), stop, 'inf', tpos=True)
-    o = L.build(aperture=('EPD', ctx.real('epd', lo=0.1, hi=20.0)), fields=(ctx.real('fy', lo=0.1, hi=20.0),))
+    L = Lens(ctx, 2, (), stop, obj, tpos=True)
+    o = L.build(aperture=('EPD', ctx.real('epd', lo=0.1, hi=20.0)), field_type='angle' if obj == 'inf' else 'object_height',
+                fields=(ctx.real('fy', lo=0.1, hi=20.0),))
     ab = o.aberrations
     names = ('TSC', 'SC', 'CC', 'TCC', 'TAC', 'AC', 'TPC', 'PC', 'DC', 'TAchC', 'LchC', 'TchC')
     to = ab.third_order()
